@@ -251,6 +251,11 @@ class Arr(object):
     def astype(self, dtype, **kw):
         return self.copy()
 
+    def tobytes(self, *a, **k):
+        """A hashable stand-in for the raw buffer: equal iff shape and every element are the same abstract value."""
+        return ('bytes', self.shape, tuple(_elem_key(v) for v in self.items()))
+    tostring = tobytes
+
     def fill(self, value):
         self[...] = value
 
@@ -420,6 +425,14 @@ class Arr(object):
     def __isub__(self, o): return self._iop(o, s_sub)
     def __imul__(self, o): return self._iop(o, s_mul)
     def __itruediv__(self, o): return self._iop(o, s_div)
+
+
+def _elem_key(v):
+    try:
+        hash(v)
+        return v
+    except TypeError:
+        return repr(v)
 
 
 def elem_real(e):
